@@ -82,7 +82,16 @@ class StabilizerStateChForm(qis.StabilizerState):
         return copy
 
     def _value_equality_values_(self) -> Any:
-        return (self.n, self.G, self.F, self.M, self.gamma, self.v, self.s, self.omega)
+        return (
+            self.n,
+            self.G.tolist(),
+            self.F.tolist(),
+            self.M.tolist(),
+            self.gamma.tolist(),
+            self.v.tolist(),
+            self.s.tolist(),
+            self.omega,
+        )
 
     def copy(self, deep_copy_buffers: bool = True) -> cirq.StabilizerStateChForm:
         copy = StabilizerStateChForm(self.n)
